@@ -89,9 +89,16 @@ func (libSim) Gen(prop, tier string, r *rand.Rand) interface{} {
 		wSync += 2
 		wAbandon = 0 // every step is an abandonment point already
 	}
+	corruptAt := -1
+	if prop == "C05" && len(l.Archs) > 1 && chance(r, 0.25) {
+		corruptAt = 1 + r.IntN(nops)
+	}
 	tot := wUpd + wMany + wAdv + wSync + wReopen + wAbandon
 	n := len(l.Archs)
 	for i := 0; i < nops; i++ {
+		if i == corruptAt {
+			c.Ops = append(c.Ops, LibOp{Op: "sync"}, LibOp{Op: "corrupt", D: int64(r.IntN(8))})
+		}
 		x := r.IntN(tot)
 		switch {
 		case x < wUpd:
